@@ -202,7 +202,7 @@ func TestC16(t *testing.T) {
 		return
 	}
 
-	search(t, rec, "history", budget(4000, 128000), 0, func(rt *rapid.T) {
+	search(t, rec, "history", budget(4000, 1000000), 0, func(rt *rapid.T) {
 		w := newRnsWorld(c, 3)
 		n := rapid.IntRange(1, 6).Draw(rt, "steps")
 		nt := false
